@@ -2,6 +2,7 @@
 #![cfg_attr(not(feature = "server"), allow(dead_code, unused_imports))]
 #![cfg_attr(docsrs, feature(doc_cfg))]
 #![warn(missing_docs)]
+#![cfg_attr(brc20_prog_verif, allow(missing_docs))]
 //! This crate provides a BRC20 programmable module implementation.
 //!
 //! It has a JSON-RPC server that runs the BRC20 programmable module, and a client
@@ -61,3 +62,7 @@ pub mod types {
 #[cfg(feature = "server")]
 #[cfg_attr(docsrs, doc(cfg(feature = "server")))]
 pub use server::start;
+
+#[cfg(all(brc20_prog_verif, feature = "server"))]
+#[doc(hidden)]
+pub mod verif;
